@@ -49,10 +49,15 @@ Definition cmd_spec_filters (v : val) : val :=
                     VL [vlist enc_key r; vbool (sublistb r L)])
           (asL (vnth v 1))).
 
-(** best makespan over filtered / all dispatch histories. [I] -> [[opt_filtered]; [opt_unfiltered]] *)
+(** best makespan over filtered / all dispatch histories, and the sizes of the two decision trees.
+    [I] -> [[opt_filtered]; [opt_unfiltered]; [leaves; nodes; dead ends] filtered; the same unfiltered] *)
+Definition enc_size (t : N * N * N) : val :=
+  let '(a, b, c) := t in VL [VI (Z.of_N a); VI (Z.of_N b); VI (Z.of_N c)].
 Definition cmd_search (v : val) : val :=
   let I := dec_instance (vnth v 0) in
-  VL [vopt VI (opt_filtered I); vopt VI (opt_unfiltered I)].
+  VL [vopt VI (opt_filtered I); vopt VI (opt_unfiltered I);
+      enc_size (tree_size [FDominated] (S (num_ops I)) I (init_w unit I [FDominated]));
+      enc_size (tree_size [] (S (num_ops I)) I (init_w unit I []))].
 
 (** Commands < 100: the dispatcher world (this file). Commands [100*k + n]:
     property Ck's own table ([CmdCk.run_ck n]). *)
